@@ -53,7 +53,8 @@ Inductive sres :=
   | RText (t : bytes) (back : option filter_kind)
   | RFilter (f : option filter_kind)
   | RHeadItems (items : list (N * N)) (len : N)
-  | RBadFingerprint.            (* get_all answered, but the store's whole-document fingerprint is not the fingerprint of the answer *)   (* decoded (timestamp, author) items of the encoding, and its length in bytes *)
+  | RBadFingerprint
+  | RPanic.                     (* the call panicked (never an answer of the model) *)            (* get_all answered, but the store's whole-document fingerprint is not the fingerprint of the answer *)   (* decoded (timestamp, author) items of the encoding, and its length in bytes *)
 
 Section StoreOps.
   Variable key_succ : bytes -> option bytes.
@@ -228,6 +229,10 @@ Section StoreOps.
     | SFilterParse t => (s, RFilter (filter_parse t))
     | SHeadsEncode heads limit =>
         let items := heads_encode_items false heads limit in
-        (s, RHeadItems items (items_size items))
+        (* a limit below the size of the empty list is an error (after the D15 repair) *)
+        (s, match limit with
+            | Some L => if L <? items_size [] then RFail else RHeadItems items (items_size items)
+            | None => RHeadItems items (items_size items)
+            end)
     end.
 End StoreOps.
